@@ -167,6 +167,9 @@ except ImportError:
 from vt.props import c04_coap  # noqa: E402
 
 CASES.update(c04_coap.CASES)
+from vt.props import c04_api  # noqa: E402
+
+CASES.update(c04_api.CASES)
 
 
 def _work(item, seed, tier):
@@ -217,11 +220,12 @@ def run(ctx):
     if c04_mgmt is not None:
         work += list(c04_mgmt.cells(ctx.tier))
     work += list(c04_coap.cells(ctx.tier))
+    work += c04_api.plan(ctx.tier)
     # cheap cells in bigger chunks, SRP-bound cells in small ones
     chunks, cur = [], []
     for w in work:
         cur.append(w)
-        limit = 6 if w[1]["step"] in ("setup-m4", "setup-m6", "coap-setup-m4", "coap-setup-m6") else 60
+        limit = 6 if w[1]["step"] in ("setup-m4", "setup-m6", "coap-setup-m4", "coap-setup-m6") or w[1]["step"].startswith("api-") else 60
         if len(cur) >= limit:
             chunks.append(cur)
             cur = []
@@ -230,5 +234,5 @@ def run(ctx):
     ctx.pmap(_work, chunks)
     ctx.exhaustive = True
     ctx.bounds.update(steps=list(STEPS) + (list(c04_mgmt.STEPS) if c04_mgmt else []), errors=list(ERRORS), states=STATES, error_positions=["first", "afterstate", "last"], styles=list(pairdrv.STYLES))
-    for s in list(STEPS) + list(c04_coap.STEPS):
+    for s in list(STEPS) + list(c04_coap.STEPS) + ["api-setup-m2", "api-setup-m4", "api-setup-m6"]:
         ctx.require(ctx.acc.symbols[s] > 0, f"step {s} never exercised")
